@@ -41,8 +41,8 @@ def configs_for(chk, prop):
     if prop == "C10":
         cfgs = [c for c in cfgs if c["alg"] != "parafac2" or c.get("nn_modes") is not None] + L.nonneg_extra_configs(chk.tier, chk.seed)
     if prop == "C07":
-        # (orthogonalise=True re-orthogonalises the factors in the first sweeps: no longer an exact block-coordinate step)
-        cfgs = [c for c in cfgs if not c.get("sparsity") and not c.get("mask") and not c.get("sampled") and not c.get("orthogonalise")]
+        # (orthogonalise=True stays in: Driver.ExactBCD says it carries no monotonicity obligation, the other clauses apply)
+        cfgs = [c for c in cfgs if not c.get("sparsity") and not c.get("mask") and not c.get("sampled")]
     if prop in ("C08", "C10"):
         # an arbitrary (non-orthonormal) user start is returned as supplied at budget 0: no canonical-form obligation
         cfgs = [c for c in cfgs if not c.get("raw_init")]
